@@ -40,6 +40,7 @@ type NativeResult struct {
 	Msg     string
 	Observe []string
 	Known   []string
+	Debug   []string
 	Raw     string
 }
 
@@ -102,6 +103,9 @@ func sxRunOne(path string) {
 	}()
 	for _, o := range sxTrace {
 		fmt.Printf("SXOBS %%s\n", strings.ReplaceAll(o, "\n", "\\n"))
+	}
+	for _, o := range sxDbg {
+		fmt.Printf("SXDBG %%s\n", strings.ReplaceAll(o, "\n", "\\n"))
 	}
 	for _, k := range sxKnownHit {
 		fmt.Printf("SXKNOWN %%s\n", k)
@@ -201,6 +205,8 @@ func (nb *nativeBuilder) run(files []string, inCmd, race bool, timeout time.Dura
 			res[curFile] = cur
 		case strings.HasPrefix(line, "SXOBS ") && cur != nil:
 			cur.Observe = append(cur.Observe, strings.TrimPrefix(line, "SXOBS "))
+		case strings.HasPrefix(line, "SXDBG ") && cur != nil:
+			cur.Debug = append(cur.Debug, strings.TrimPrefix(line, "SXDBG "))
 		case strings.HasPrefix(line, "SXKNOWN ") && cur != nil:
 			cur.Known = append(cur.Known, strings.TrimPrefix(line, "SXKNOWN "))
 		case strings.HasPrefix(line, "SXRESULT ") && cur != nil:
@@ -354,6 +360,12 @@ func cmdReplay(args []string) int {
 		return 3
 	}
 	fmt.Printf("native: status=%s label=%q msg=%q (expected %s %q)\n", nr.Status, nr.Label, nr.Msg, rf.Expect, rf.Label)
+	for _, o := range nr.Observe {
+		fmt.Println("  observed:", o)
+	}
+	for _, o := range nr.Debug {
+		fmt.Println("  debug:", o)
+	}
 	if nr.Raw != "" {
 		fmt.Println(nr.Raw)
 	}
